@@ -434,3 +434,27 @@ def check(ctx: Ctx):
         r06_7_hint_source(ctx)
     if C.want(ctx, 'R06.8'):
         r06_8(ctx)
+    if C.want(ctx, 'R06.11'):
+        r06_11(ctx)
+
+
+def r06_11(ctx: Ctx):
+    """Stored points stay images of their coordinates only while the evolvent that produced them keeps its box:
+    the evolvent owns its bound arrays (copies taken by the constructor / SetBounds), and no routine of the solving
+    API re-targets it."""
+    rid = 'R06.11'
+    ctx.rule(rid, 'the evolvent behind the stored points keeps its box: the bound arrays are private copies and the '
+                  'solving API never calls SetBounds')
+    from . import evo
+    evo.rule_box_copied(ctx, rid)
+    roles = C.roles_of(ctx)
+    e = evo.evo_of(ctx)
+    sb = e.cls.methods.get('SetBounds')
+    if sb is not None:
+        api = [roles.api(n) for n in ('Solve', 'DoGlobalIteration', 'DoLocalRefinement', 'GetResults')]
+        reach = ctx.pta.reachable([a for a in api if a is not None])
+        ctx.check(roles.fq(sb) not in reach, rid, sb.short, sb.loc(),
+                  'SetBounds is not reachable from the solving API',
+                  'a routine of the solving API re-targets the evolvent (SetBounds): points stored before are no '
+                  'longer images of their coordinates under the solver\'s evolvent',
+                  key=f'{rid}::{sb.short}::reachable-from-api')
